@@ -3,6 +3,7 @@ package router
 import (
 	"fmt"
 	"maps"
+	"math"
 	"slices"
 	"time"
 
@@ -1070,14 +1071,19 @@ func (b *broker) subEventHistory(msg *wamp.Invocation) wamp.Message {
 		}
 	}
 
-	limit, ok = msg.ArgumentsKw["limit"].(int)
-	if ok && limit < 1 {
-		return &wamp.Error{
-			Type:    msg.MessageType(),
-			Request: msg.Request,
-			Details: wamp.Dict{},
-			Error:   wamp.ErrInvalidArgument,
+	// Integers arrive as different Go types depending on the transport and
+	// serializer of the caller, so do not assert a particular one.
+	if limitOp, ok := msg.ArgumentsKw["limit"]; ok {
+		limit64, ok := wamp.AsInt64(limitOp)
+		if !ok || limit64 < 1 {
+			return &wamp.Error{
+				Type:    msg.MessageType(),
+				Request: msg.Request,
+				Details: wamp.Dict{},
+				Error:   wamp.ErrInvalidArgument,
+			}
 		}
+		limit = int(min(limit64, math.MaxInt32))
 	}
 
 	reverseOp, ok := msg.ArgumentsKw["reverse"]
@@ -1152,8 +1158,8 @@ func (b *broker) subEventHistory(msg *wamp.Invocation) wamp.Message {
 
 	fromPubOp, ok := msg.ArgumentsKw["from_publication"]
 	if ok {
-		fromPub, ok = fromPubOp.(wamp.ID)
-		if !ok || fromPub < 1 {
+		fromPub, ok = wamp.AsID(fromPubOp)
+		if !ok {
 			return &wamp.Error{
 				Type:    msg.MessageType(),
 				Request: msg.Request,
@@ -1166,8 +1172,8 @@ func (b *broker) subEventHistory(msg *wamp.Invocation) wamp.Message {
 
 	afterPubOp, ok := msg.ArgumentsKw["after_publication"]
 	if ok {
-		afterPub, ok = afterPubOp.(wamp.ID)
-		if !ok || afterPub < 1 {
+		afterPub, ok = wamp.AsID(afterPubOp)
+		if !ok {
 			return &wamp.Error{
 				Type:    msg.MessageType(),
 				Request: msg.Request,
@@ -1179,8 +1185,8 @@ func (b *broker) subEventHistory(msg *wamp.Invocation) wamp.Message {
 
 	beforePubOp, ok := msg.ArgumentsKw["before_publication"]
 	if ok {
-		beforePub, ok = beforePubOp.(wamp.ID)
-		if !ok || beforePub < 1 {
+		beforePub, ok = wamp.AsID(beforePubOp)
+		if !ok {
 			return &wamp.Error{
 				Type:    msg.MessageType(),
 				Request: msg.Request,
@@ -1192,8 +1198,8 @@ func (b *broker) subEventHistory(msg *wamp.Invocation) wamp.Message {
 
 	untilPubOp, ok := msg.ArgumentsKw["until_publication"]
 	if ok {
-		untilPub, ok = untilPubOp.(wamp.ID)
-		if !ok || untilPub < 1 {
+		untilPub, ok = wamp.AsID(untilPubOp)
+		if !ok {
 			return &wamp.Error{
 				Type:    msg.MessageType(),
 				Request: msg.Request,
